@@ -275,10 +275,13 @@ class PDFXRefStream(PDFBaseXRef):
         return "<PDFXRefStream: ranges=%r>" % (self.ranges)
 
     def load(self, parser: PDFParser) -> None:
-        (_, objid) = parser.nexttoken()  # ignored
-        (_, genno) = parser.nexttoken()  # ignored
-        (_, kwd) = parser.nexttoken()
-        (_, stream) = parser.nextobject()
+        try:
+            (_, objid) = parser.nexttoken()  # ignored
+            (_, genno) = parser.nexttoken()  # ignored
+            (_, kwd) = parser.nexttoken()
+            (_, stream) = parser.nextobject()
+        except PSEOF:
+            raise PDFNoValidXRef("Unexpected EOF - file corrupted?")
         if not isinstance(stream, PDFStream) or stream.get("Type") is not LITERAL_XREF:
             raise PDFNoValidXRef("Invalid PDF stream spec.")
         size = stream["Size"]
